@@ -20,6 +20,7 @@ type tmplRow struct {
 	Printed []string // field chains printed (".Info.Name" -> "Info.Name")
 	Guards  []string // field chains tested by enclosing if/with/range
 	Funcs   []string // functions applied in the printing action
+	GFuncs  []string // functions applied in the enclosing if/with/range pipelines
 	Literal string   // literal text between the label and the action on the same line
 	Cond    bool     // inside an if/with/range
 }
@@ -64,6 +65,7 @@ func (ti *tmplInfo) parse() {
 	}
 	label := ""
 	literal := ""
+	var gfuncs []string
 	var walk func(n parse.Node, guards []string, vars map[string][]string, dot []string, cond bool)
 	fieldsOf := func(n parse.Node, vars map[string][]string, dot []string) (fields []string, funcs []string) {
 		var rec func(n parse.Node)
@@ -137,12 +139,15 @@ func (ti *tmplInfo) parse() {
 				}
 				return
 			}
-			ti.Rows = append(ti.Rows, tmplRow{Label: label, Printed: f, Guards: append([]string{}, guards...), Funcs: fn, Literal: literal, Cond: cond})
+			ti.Rows = append(ti.Rows, tmplRow{Label: label, Printed: f, Guards: append([]string{}, guards...), Funcs: fn, GFuncs: append([]string{}, gfuncs...), Literal: literal, Cond: cond})
 			literal = ""
 		case *parse.IfNode:
-			f, _ := fieldsOf(x.Pipe, vars, dot)
+			f, gf := fieldsOf(x.Pipe, vars, dot)
 			nrows, nlabels := len(ti.Rows), len(ti.Label)
+			saved := gfuncs
+			gfuncs = append(append([]string{}, gfuncs...), gf...)
 			walk(x.List, append(append([]string{}, guards...), f...), vars, dot, true)
+			gfuncs = saved
 			if len(ti.Rows) == nrows && len(ti.Label) > nlabels {
 				// a label emitted as plain text behind a guard ("Essential: yes")
 				ti.Rows = append(ti.Rows, tmplRow{Label: label, Guards: append(append([]string{}, guards...), f...), Literal: literal, Cond: true})
@@ -151,13 +156,18 @@ func (ti *tmplInfo) parse() {
 				walk(x.ElseList, guards, vars, dot, true)
 			}
 		case *parse.WithNode:
-			f, _ := fieldsOf(x.Pipe, vars, dot)
+			f, gf := fieldsOf(x.Pipe, vars, dot)
+			saved := gfuncs
+			gfuncs = append(append([]string{}, gfuncs...), gf...)
 			walk(x.List, append(append([]string{}, guards...), f...), vars, f, true)
+			gfuncs = saved
 			if x.ElseList != nil {
 				walk(x.ElseList, guards, vars, dot, true)
 			}
 		case *parse.RangeNode:
-			f, _ := fieldsOf(x.Pipe, vars, dot)
+			f, gf := fieldsOf(x.Pipe, vars, dot)
+			saved := gfuncs
+			gfuncs = append(append([]string{}, gfuncs...), gf...)
 			nv := map[string][]string{}
 			for k, v := range vars {
 				nv[k] = v
@@ -166,6 +176,7 @@ func (ti *tmplInfo) parse() {
 				nv[d.Ident[0]] = f
 			}
 			walk(x.List, append(append([]string{}, guards...), f...), nv, f, true)
+			gfuncs = saved
 		}
 	}
 	walk(t.Root, nil, map[string][]string{}, nil, false)
